@@ -27,8 +27,8 @@ def universes(tier, seed):
     out.append(("NFVS3_multi", [("idx", 3, i) for i in nm]))
     if tier == "quick":
         out.append(("F3c", [("idx", 3, i) for i in U.F3_indices(True)]))
-        out.append((f"MAA3[{seed % 64}/64]", [("idx", 3, i) for i in U.shard(U.catalogue("maa"), seed, 64)]))
-        out.append((f"NFVS3[{seed % 128}/128]", [("idx", 3, i) for i in U.shard(U.catalogue("nfvs"), seed, 128)]))
+        out.append((f"MAA3[{seed % 128}/128]", [("idx", 3, i) for i in U.shard(U.catalogue("maa"), seed, 128)]))
+        out.append((f"NFVS3[{seed % 256}/256]", [("idx", 3, i) for i in U.shard(U.catalogue("nfvs"), seed, 256)]))
         out.append(("P4c", [("p4", a, b) for a, b in U.P4_pairs(True)]))
         out.append(("I3", [("i3", i) for i in range(len(U.I3_nets()))]))
         out.append((f"U3c[idx={seed % 4093} mod 4093]", [("idx", 3, i) for i in U.U3c_shard(seed, 4093)]))
